@@ -43,10 +43,10 @@ def main(ids):
         try:
             shutil.copytree(os.path.join(env.REPO, "middleware"), os.path.join(scratch, "middleware"), symlinks=True)
             os.symlink(os.path.join(env.REPO, "firmware"), os.path.join(scratch, "firmware"))
-            os.symlink(os.path.join(env.REPO, "docs"), os.path.join(scratch, "docs"))
-            if "patch" in m and any(not l[6:].startswith("middleware/") for l in open(m["patch"])
+            shutil.copytree(os.path.join(env.REPO, "docs"), os.path.join(scratch, "docs"), symlinks=True)
+            if "patch" in m and any(not l[6:].startswith(("middleware/", "docs/")) for l in open(m["patch"])
                                     if l.startswith("+++ b/")):
-                n = 0       # only the copied middleware/ may be patched (firmware/ and docs/ are links)
+                n = 0       # only the copied middleware/ and docs/ may be patched (firmware/ is a link)
             elif "patch" in m:
                 pr = subprocess.run(["patch", "-p1", "-s", "--fuzz=3", "-i", m["patch"]], cwd=scratch,
                                     capture_output=True, text=True)
